@@ -16,9 +16,13 @@ def build(tier):
         ld = [(k, r, n1, s) for k in (1, 2, 3, 5, 8) for (r, n1) in ((3, 3), (4, 4), (5, 3), (6, 5)) for s in (1, 12345)]
     for i, (codec, m, k, r) in enumerate(rs):
         big = k * r > 16
-        for li, ln in enumerate(lens if tier == "thorough" and not big else [lens[i % 5], lens[(i + 2) % 5]]):
+        if big:
+            cfg_lens = [1] if tier == "quick" else [1, 17]
+        else:
+            cfg_lens = lens if tier == "thorough" else [lens[i % 5], lens[(i + 2) % 5]]
+        for li, ln in enumerate(cfg_lens):
             data = "one" if (k * ln > 40 or big) else "full"
-            qs.append(enc_query("C06", codec, k, r, ln, m=m, en=EN, data=data, null_slot=(li == 0), timeout=900))
+            qs.append(enc_query("C06", codec, k, r, ln, m=m, en=EN, data=data, null_slot=(li == 0 and not big), timeout=900 if tier == "quick" else 3000))
     for i, (k, r, n1, s) in enumerate(ld):
         for li, ln in enumerate([lens[i % 5], lens[(i + 3) % 5]] if tier == "quick" else lens):
             qs.append(enc_query("C06", LDPC, k, r, ln, n1=n1, seed=s, en=EN, null_slot=(li == 0)))
